@@ -162,6 +162,10 @@ func c07Intent(rng *rand.Rand, binary bool, opaque *uint32) wire.Cmd {
 			c.Op = "gete"
 		}
 		n := 2 + rng.Intn(5)
+		if rng.Intn(6) == 0 {
+			// many keys: text command lines far longer than one buffer, long quiet batches
+			n = []int{17, 40, 100}[rng.Intn(3)]
+		}
 		for i := 0; i < n; i++ {
 			c.Keys = append(c.Keys, key())
 		}
